@@ -51,6 +51,61 @@ Proof.
     apply (IH _ _ f t rest err endpos (length (t_val x)) e H Hstop). cbn in Hf. lia.
 Qed.
 
+(* the lexer moves forward: every token (and a lexical error) lies at or after the end of the tokens before it *)
+Lemma lex_all_order : forall fl pos l toks err,
+  lex_all fl pos l = (toks, err) ->
+  (forall t, In t toks -> pos <= t_pos t) /\ (forall p, err = Some p -> pos <= p) /\
+  (forall a t b, toks = a ++ t :: b ->
+     (forall u, In u b -> t_pos t + length (t_val t) <= t_pos u) /\
+     (forall p, err = Some p -> t_pos t + length (t_val t) <= p)).
+Proof.
+  induction fl as [|f IH]; intros pos l toks err H.
+  - cbn in H. inversion H; subst. split; [intros t []|]. split; [intros p E; inversion E; lia|].
+    intros a t b E. destruct a; discriminate.
+  - cbn [lex_all] in H. destruct (next_token pos l) as [|t after|p0] eqn:E.
+    + inversion H; subst. split; [intros t []|]. split; [discriminate|]. intros a t b E'. destruct a; discriminate.
+    + destruct (lex_all f (t_pos t + length (t_val t)) after) as [ts e] eqn:E2. inversion H; subst toks err. clear H.
+      destruct (next_token_progress _ _ _ _ E) as (_ & _ & P3 & P4 & _).
+      destruct (IH _ _ _ _ E2) as (I1 & I2 & I3).
+      split; [intros u [<-|Hu]; [exact P4|specialize (I1 u Hu); lia]|].
+      split; [intros p Hp; specialize (I2 p Hp); lia|].
+      intros a u b Eq. destruct a as [|x a]; cbn [app] in Eq; inversion Eq; subst.
+      * split; [intros w Hw; apply (I1 w Hw)|intros p Hp; apply (I2 p Hp)].
+      * apply (I3 a u b eq_refl).
+    + inversion H; subst. split; [intros t []|].
+      destruct (next_token_err _ _ _ E) as (k0 & K1 & _).
+      split; [intros p Hp; inversion Hp; lia|]. intros a t b E'. destruct a; discriminate.
+Qed.
+
+Lemma lex_order : forall text a t b,
+  fst (lex text) = a ++ t :: b ->
+  (forall u, In u b -> t_pos t < t_pos u) /\ (forall p, snd (lex text) = Some p -> t_pos t < p).
+Proof.
+  intros text a t b H. unfold lex in *.
+  destruct (lex_all (S (length text)) 0 text) as [toks err] eqn:E. cbn [fst snd] in *.
+  destruct (lex_all_order _ _ _ _ _ E) as (_ & _ & I3).
+  destruct (I3 a t b H) as (J1 & J2).
+  assert (Hin : In t toks) by (rewrite H; apply in_or_app; right; left; reflexivity).
+  assert (Hlen : 1 <= length (t_val t)).
+  { pose proof (lex_token_at text t) as X. unfold lex in X. rewrite E in X. apply X. exact Hin. }
+  split; [intros u Hu; specialize (J1 u Hu); lia|intros p Hp; specialize (J2 p Hp); lia].
+Qed.
+
+(* the tokens the machine takes are consumed: the run goes on from the state they lead to *)
+Lemma steps_then_run : forall T pre st st' fuel rest err endpos lastlen,
+  steps T st (map strip_pos pre) = Some st' -> length pre < fuel ->
+  exists ll, run_tokens fuel T (pre ++ rest) err endpos lastlen st =
+             run_tokens (fuel - length pre) T rest err endpos ll st'.
+Proof.
+  intros T. induction pre as [|x pre IH]; intros st st' fuel rest err endpos lastlen H Hf.
+  - cbn in H. inversion H; subst st'. exists lastlen. cbn [app length]. rewrite Nat.sub_0_r. reflexivity.
+  - destruct fuel as [|f]; [cbn in Hf; lia|]. cbn [app]. rewrite run_tokens_S_cons.
+    cbn [map steps] in H. rewrite process_strip in H.
+    destruct (process T st x); try discriminate.
+    destruct (IH _ _ f rest err endpos (length (t_val x)) H ltac:(cbn in Hf; lia)) as (ll & E).
+    exists ll. rewrite E. reflexivity.
+Qed.
+
 Theorem reject_after_prefix : forall T text pre t rest st e,
   fst (lex text) = pre ++ t :: rest ->
   steps T p_init (map strip_pos pre) = Some st -> stops (process T st t) e ->
@@ -608,6 +663,48 @@ Section Texts.
     destruct (prefix_ready T HT _ L prev k Hp) as (st & S1 & R1 & L1 & P1 & B1 & A1).
     apply (reject_after_prefix T text pre t rest st e Hl S1). apply Hstop.
     split; [exact R1|]. split; [exact L1|]. split; [exact P1|]. split; [exact B1|exact A1].
+  Qed.
+
+  (* C18, second clause: a rejection is never reported inside a prefix of the grammar -- it is reported at a token
+     that comes after it, at the place of the lexical error (which lies after every token), or at the end *)
+  Theorem reject_not_in_prefix : forall text pre rest L prev k e pos tlen,
+    wf_prefix T (map strip_pos pre) L prev k ->
+    fst (lex text) = pre ++ rest ->
+    parse T text = Reject e pos tlen ->
+    (e = EUnknownToken /\ snd (lex text) = Some pos) \/
+    ((e = EEndExpected \/ e = EEndUnfinished) /\ pos = length text) \/
+    (exists t, In t rest /\ t_pos t = pos /\ tlen = length (t_val t)).
+  Proof.
+    intros text pre rest L prev k e pos tlen Hp Hl Hrej.
+    destruct (prefix_ready T HT _ L prev k Hp) as (st & S1 & _).
+    rewrite parse_run_tokens, Hl in Hrej.
+    assert (Hlen : length pre < 2 * length text + 2).
+    { pose proof (token_count text) as Hc. rewrite Hl, app_length in Hc. lia. }
+    destruct (steps_then_run T pre p_init st _ rest (snd (lex text)) (length text) 0 S1 Hlen) as (ll & E).
+    rewrite E in Hrej.
+    destruct (run_tokens_reject _ _ _ _ _ _ _ _ _ _ Hrej) as [(He & Herr)|[(He & Hpos & _)|(n & Hn & R)]].
+    - left. auto.
+    - right. left. auto.
+    - right. right. destruct (run_prefix_reject_token _ _ _ _ _ _ _ _ R) as (t & Hin & Hpos & Hlen' & _).
+      exists t. split; [|auto]. eapply In_firstn. exact Hin.
+  Qed.
+
+  (* the same in byte offsets: nothing is reported before the first token after the prefix *)
+  Theorem reject_not_before : forall text pre t0 rest L prev k e pos tlen,
+    wf_prefix T (map strip_pos pre) L prev k ->
+    fst (lex text) = pre ++ t0 :: rest ->
+    parse T text = Reject e pos tlen ->
+    t_pos t0 <= pos.
+  Proof.
+    intros text pre t0 rest L prev k e pos tlen Hp Hl Hrej.
+    destruct (lex_order text pre t0 rest Hl) as (O1 & O2).
+    destruct (reject_not_in_prefix text pre (t0 :: rest) L prev k e pos tlen Hp Hl Hrej)
+      as [(_ & Herr)|[(_ & Hpos)|(t & [<-|Hin] & Hpos & _)]].
+    - specialize (O2 pos Herr). lia.
+    - assert (Hin : In t0 (fst (lex text))) by (rewrite Hl; apply in_or_app; right; left; reflexivity).
+      pose proof (lex_token_at text t0 Hin) as (_ & X & _). lia.
+    - lia.
+    - specialize (O1 t Hin). lia.
   Qed.
 
   (* ---- between commands *)
